@@ -120,6 +120,20 @@ def phraseSfxOpd (body : Str) (x : Sfx) : Opd :=
 def fieldPhraseSfxOpd (f body : Str) (x : Sfx) : Opd :=
   ⟨f ++ ':' :: '"' :: (body ++ '"' :: x.text), .leaf (.literal (some f) body .double x.slopVal x.isPfx), 1⟩
 
+/-- the text of a bracketed range: `[a TO b]` (inclusive bounds), `{a TO b}` (exclusive), or mixed -/
+def rangeText (lo hi : Bool) (w1 w2 : Str) : Str :=
+  (if lo then '[' else '{') :: (w1 ++ ' ' :: 'T' :: 'O' :: ' ' :: (w2 ++ [if hi then ']' else '}']))
+
+/-- a bracketed range as an operand -/
+def rangeOpd (lo hi : Bool) (w1 w2 : Str) : Opd :=
+  ⟨rangeText lo hi w1 w2,
+    .leaf (.range none (if lo then .incl w1 else .excl w1) (if hi then .incl w2 else .excl w2)), 1⟩
+
+/-- `name:[a TO b]` as an operand -/
+def fieldRangeOpd (f : Str) (lo hi : Bool) (w1 w2 : Str) : Opd :=
+  ⟨f ++ ':' :: rangeText lo hi w1 w2,
+    .leaf (.range (some f) (if lo then .incl w1 else .excl w1) (if hi then .incl w2 else .excl w2)), 1⟩
+
 /-- `NOT x` (`k + 1` blanks after the keyword) as an operand -/
 def notOpd (k : Nat) (o : Opd) : Opd :=
   ⟨'N' :: 'O' :: 'T' :: ' ' :: (spaces k ++ o.text), o.leaf.unary .mustNot, o.cost + 1⟩
